@@ -77,6 +77,14 @@ class AList:
     def __repr__(self):
         return f"AList({self.items!r})"
 
+class ADict:
+    """dictionary with concrete (shape) keys and abstract values"""
+    __slots__ = ('items',)
+    def __init__(self, items=None):
+        self.items = dict(items or {})
+    def __repr__(self):
+        return f"ADict({list(self.items)})"
+
 class AStr:
     __slots__ = ('pieces',)
     def __init__(self, pieces):
@@ -108,7 +116,8 @@ def norm_byte(vec):
     return ('b', tuple(v))
 
 class Interp:
-    def __init__(self, methods=None, hook=None, skip=None, max_steps=400000):
+    def __init__(self, methods=None, hook=None, skip=None, max_steps=400000, classes=None):
+        self.classes = classes or {}        # class name -> ClassDef: instantiated by interpreting __init__
         self.methods = methods or {}         # method name -> FunctionDef for calls on AObj receivers
         self.hook = hook                     # hook(interp, call, env) -> value | NotImplemented ; consulted before evaluating arguments
         self.skip = skip or (lambda call: False)
@@ -171,6 +180,17 @@ class Interp:
             self.block(s.orelse, env)
         elif isinstance(s, ast.Pass):
             return
+        elif isinstance(s, ast.Delete):
+            for t in s.targets:
+                if isinstance(t, ast.Subscript):
+                    o = self.expr(t.value, env)
+                    if isinstance(o, ADict):
+                        k = self.key_of(self.expr(t.slice, env), s)
+                        if k not in o.items:
+                            raise Unknown(f"del of a missing key at line {s.lineno}")
+                        del o.items[k]
+                        continue
+                raise Unknown(f"del target at line {s.lineno}")
         elif isinstance(s, ast.Raise):
             raise RaiseSignal(s)
         elif isinstance(s, ast.Assert):
@@ -178,7 +198,18 @@ class Interp:
         else:
             raise Unknown(f"statement {type(s).__name__} at line {s.lineno}")
 
+    def key_of(self, k, node=None):
+        if isinstance(k, AInt) and k.v is not None:
+            return k.v
+        if isinstance(k, AStr) and k.literal() is not None:
+            return k.literal()
+        if isinstance(k, (int, str)):
+            return k
+        raise Unknown(f"dictionary key is abstract at line {getattr(node, 'lineno', 0)}")
+
     def iterate(self, it, node):
+        if isinstance(it, ADict):
+            return [AInt(k) if isinstance(k, int) else AStr([('lit', k)]) for k in it.items]
         if isinstance(it, AList):
             return list(it.items)
         if isinstance(it, (tuple, list)):
@@ -200,6 +231,14 @@ class Interp:
                 return
             else:
                 raise Unknown(f"attribute store on {type(o).__name__}")
+        elif isinstance(t, ast.Subscript):
+            o = self.expr(t.value, env)
+            if isinstance(o, ADict):
+                o.items[self.key_of(self.expr(t.slice, env), t)] = v
+            elif isinstance(o, AOpaque):
+                return
+            else:
+                raise Unknown(f"subscript store on {type(o).__name__}")
         elif isinstance(t, (ast.Tuple, ast.List)):
             if isinstance(v, AOpaque):
                 for e in t.elts:
@@ -311,6 +350,8 @@ class Interp:
             return True
         if isinstance(e, ast.IfExp):
             return self.expr(e.body if self.truth(self.expr(e.test, env), e) else e.orelse, env)
+        if isinstance(e, ast.Dict):
+            return ADict({self.key_of(self.expr(k, env), e): self.expr(v, env) for k, v in zip(e.keys, e.values)})
         if isinstance(e, ast.List):
             return AList([self.expr(x, env) for x in e.elts])
         if isinstance(e, ast.Tuple):
@@ -333,14 +374,18 @@ class Interp:
                     pieces.extend(self.format(val, spec or ''))
             return AStr(pieces)
         if isinstance(e, (ast.GeneratorExp, ast.ListComp)):
-            if len(e.generators) != 1 or e.generators[0].ifs:
-                raise Unknown('comprehension shape')
-            g = e.generators[0]
             out = []
-            for x in self.iterate(self.expr(g.iter, env), e):
-                env2 = dict(env)
-                self.assign(g.target, x, env2)
-                out.append(self.expr(e.elt, env2))
+            def rec(i, env2):
+                if i == len(e.generators):
+                    out.append(self.expr(e.elt, env2))
+                    return
+                g = e.generators[i]
+                for x in self.iterate(self.expr(g.iter, env2), e):
+                    env3 = dict(env2)
+                    self.assign(g.target, x, env3)
+                    if all(self.truth(self.expr(c, env3), e) for c in g.ifs):
+                        rec(i + 1, env3)
+            rec(0, env)
             return AList(out)
         if isinstance(e, ast.Await):
             return self.expr(e.value, env)
@@ -363,6 +408,11 @@ class Interp:
         return [('lit', '?')] if False else [('opaque', repr(val))]
 
     def compare(self, op, a, b, node=None):
+        if isinstance(op, (ast.In, ast.NotIn)) and isinstance(b, ADict):
+            r = self.key_of(a, node) in b.items
+            return r if isinstance(op, ast.In) else not r
+        if isinstance(op, (ast.Is, ast.IsNot)) and (a is None or b is None) and isinstance(a if b is None else b, (ABytes, AList, ADict, AObj, AStr, AOpaque)):
+            return isinstance(op, ast.IsNot)
         if isinstance(op, (ast.In, ast.NotIn)):
             la = a.literal() if isinstance(a, AStr) else None
             if la is not None and isinstance(b, AList) and all(isinstance(x, AStr) and x.literal() is not None for x in b.items):
@@ -427,6 +477,11 @@ class Interp:
     def subscript(self, o, sl, env):
         if isinstance(o, AOpaque):
             return AOpaque(o.what + '[]')
+        if isinstance(o, ADict):
+            k = self.key_of(self.expr(sl, env), sl)
+            if k not in o.items:
+                raise Unknown(f"missing dictionary key {k!r} at line {getattr(sl, 'lineno', 0)}")
+            return o.items[k]
         if isinstance(o, AStr):
             # character-level access is only supported on literals (e.g. parts[0][1:])
             lit = o.literal()
@@ -535,8 +590,22 @@ class Interp:
             else:
                 args.append(self.expr(a, env))
         kw = {k.arg: self.expr(k.value, env) for k in e.keywords}
+        if isinstance(f, ast.Name) and f.id in self.classes:
+            cdef = self.classes[f.id]
+            obj = AObj()
+            obj.attrs['__class__'] = f.id
+            init = [n for n in cdef.body if isinstance(n, ast.FunctionDef) and n.name == '__init__']
+            if init:
+                self.call_function(init[0], [obj] + args, kw)
+            return obj
         if isinstance(f, ast.Name):
             n = f.id
+            if n == 'sorted' and args and isinstance(args[0], ADict):
+                return AList([AInt(k) if isinstance(k, int) else AStr([('lit', k)]) for k in sorted(args[0].items)])
+            if n == 'sorted' and args and isinstance(args[0], AList) and all(isinstance(x, AInt) and x.v is not None for x in args[0].items):
+                return AList(sorted(args[0].items, key=lambda x: x.v))
+            if n == 'len' and args and isinstance(args[0], ADict):
+                return AInt(len(args[0].items))
             if n == 'len':
                 x = args[0]
                 if isinstance(x, (ABytes, AList)):
@@ -621,6 +690,22 @@ class Interp:
             o = self.expr(f.value, env)
             if isinstance(o, AOpaque):
                 return AOpaque(f"{o.what}.{m}()")
+            if isinstance(o, ADict):
+                if m == 'get':
+                    return o.items.get(self.key_of(args[0], e), args[1] if len(args) > 1 else None)
+                if m == 'clear':
+                    o.items.clear(); return None
+                if m == 'pop':
+                    k = self.key_of(args[0], e)
+                    if k in o.items:
+                        return o.items.pop(k)
+                    if len(args) > 1:
+                        return args[1]
+                    raise Unknown(f"pop of a missing key at line {e.lineno}")
+                if m in ('keys',):
+                    return AList([AInt(k) if isinstance(k, int) else AStr([('lit', k)]) for k in o.items])
+                if m == 'values':
+                    return AList(list(o.items.values()))
             if isinstance(o, AList):
                 if m == 'append':
                     o.items.append(args[0]); return None
